@@ -158,10 +158,63 @@ def clause2(P, res):
         res.violated(rid, "ring-dequeue-sites", f"expected >= 5 payload reads in the bounded rings, found {n}")
 
 
+CAP_RX = re.compile(r"(^|\.)(cap|capacity|logical_cap)$")
+
+
+def plus_one(b, op):
+    d = b.def_event_of_operand(op)
+    if d is None:
+        return False
+    if d.kind == "assign" and d.data["r"]["k"] == "bin" and d.data["r"]["op"] in ("Add", "AddWithOverflow", "AddUnchecked"):
+        k = b.const_of_operand(d.data["r"]["b"]) or b.const_of_operand(d.data["r"]["a"])
+        return k is not None and k.get("v") == 1
+    if d.kind == "call" and d.method in ("wrapping_add", "saturating_add", "checked_add") and len(d.args) == 2:
+        k = b.const_of_operand(d.args[1])
+        return k is not None and k.get("v") == 1
+    return False
+
+
+def clause3(P, res):
+    rid = "C03-3"
+    res.rule(rid, "occupancy is compared strictly against capacity: every ordering comparison between a (non-constant) occupancy expression and a capacity "
+                  "field of a channel is one of `occ < cap`, `occ >= cap`, `cap > occ`, `cap <= occ` (or the `occ + 1 <= cap` spelling) — `occ <= cap` / "
+                  "`occ > cap` admit an (N+1)th value or report Full one early")
+    n = 0
+    for b in P.bodies.values():
+        if not b.id.startswith("fibre::") or "::tests::" in b.id or not common.in_scope(b.id):
+            continue
+        k = 0
+        for e in b.events:
+            if e.kind != "assign" or e.data["r"]["k"] != "bin" or e.data["r"]["op"] not in ("Lt", "Le", "Gt", "Ge"):
+                continue
+            r = e.data["r"]
+            pa, pb = b.path_of_operand(r["a"]), b.path_of_operand(r["b"])
+            ca, cb = bool(CAP_RX.search(pa)), bool(CAP_RX.search(pb))
+            if ca == cb:
+                continue
+            occ = r["b"] if ca else r["a"]
+            if b.const_of_operand(occ) is not None:
+                continue      # capacity > 0 style configuration tests
+            n += 1
+            key = f"{b.id}:cmp#{k}"
+            k += 1
+            op = r["op"] if cb else {"Lt": "Gt", "Gt": "Lt", "Le": "Ge", "Ge": "Le"}[r["op"]]   # normalised to  occ <op> cap
+            if op in ("Lt", "Ge"):
+                res.holds(rid, key, f"occ {'<' if op == 'Lt' else '>='} cap", where=e.loc)
+            elif plus_one(b, occ):
+                res.holds(rid, key, "occ + 1 <=/> cap (strict in occ)", where=e.loc)
+            else:
+                res.violated(rid, key, f"occupancy is compared with `{'<=' if op == 'Le' else '>'}` against the capacity at {e.loc}: off by one — the channel admits capacity+1 values "
+                             "(or refuses the last slot)", where=e.loc)
+    if n < 20:
+        res.violated(rid, "capacity-comparisons", f"expected >= 20 occupancy/capacity comparisons, found {n}")
+
+
 def run(P, ctx):
     res = Result("C03")
     res.extra["explanation"] = ("Admission-gate shape of value-carrying commits where the admission predicate is a call (mpsc-bounded credit, mpmc-bounded fullness under "
                                 "the lock, oneshot CAS, rendezvous pairing). SPSC/SPMC admission is inline index arithmetic and is NOT decided; len()<=capacity as a number is not decided.")
     clause1(P, res)
     clause2(P, res)
+    clause3(P, res)
     return res
